@@ -220,11 +220,13 @@ impl<F: Float + SampleUniform + std::fmt::Debug, T: Hash, H: Hasher + Default>
             if rpj < self.hsketch[self.p[j]] {
                 // update of signature of rank j
                 let j_2 = cmp::min(self.hsketch[self.p[j]].to_usize().unwrap(), m - 1);
+                // r + j can round up to j + 1 : the counter to increase is the one of the integer part really stored
+                let j_1 = cmp::min(rpj.to_usize().unwrap(), m - 1);
                 self.hsketch[self.p[j]] = rpj;
-                if j < j_2 {
+                if j_1 < j_2 {
                     // we can decrease counter of upper parts of b and update upper
                     self.b[j_2] -= 1;
-                    self.b[j] += 1;
+                    self.b[j_1] += 1;
                     while self.b[self.a_upper] == 0 {
                         self.a_upper -= 1;
                     } // end if j < j_2
